@@ -240,6 +240,13 @@ func pickV[V any](c bool, a, b V) V {
 	return b
 }
 
+func pickCall[K comparable, V any](c bool, a, b *call[K, V]) *call[K, V] {
+	if c {
+		return a
+	}
+	return b
+}
+
 func pickCause(c bool, a, b DeletionCause) DeletionCause {
 	if c {
 		return a
@@ -373,6 +380,7 @@ func estOf[K comparable](s *sketch[K], k K) uint64 {
 
 //@ func (*cache).maintenance : C01 C03 C19
 //@   assumed footprint only here; the body is verified under C04/C05/C13
+//@   counted
 //@   modifies $MAINT, $EVLOG, $ONDEL
 
 //@ func (*cache).afterRead : C01 C03 C12 C20
@@ -579,7 +587,8 @@ func estOf[K comparable](s *sketch[K], k K) uint64 {
 // ---------------------------------------------------------------------------------------------
 
 //@ func (*group).delete : C09 C08 C01 C03 C06
-//@   mode seq,itf
+//@   mode seq
+//@   note called only inside the node table's critical section for the same key (atomicSet, atomicDelete, deleteNodeFromMap), where the bucket lock protects the call-table entry of that key
 //@   modifies ghost_calls(g.calls, key)
 //@   ensures [C09:write-clears-call] g.isInitialized.Load() ==> ghost_calls(g.calls, key) == nil
 //@   ensures [no-table-before-init] !g.isInitialized.Load() ==> ghost_calls(g.calls, key) == pre(ghost_calls(g.calls, key))
@@ -603,6 +612,7 @@ func estOf[K comparable](s *sketch[K], k K) uint64 {
 //@   ensures [new-node] result != nil && result != old && same(ghost_key(result), key) && same(ghost_value(result), value) && alive(result)
 //@   ensures [C09:write-clears-call] cl == nil && c.singleflight.isInitialized.Load() ==> ghost_calls(c.singleflight.calls, key) == nil
 //@   ensures [C09:install-keeps-call-table] cl != nil || !c.singleflight.isInitialized.Load() ==> ghost_calls(c.singleflight.calls, key) == pre(ghost_calls(c.singleflight.calls, key))
+//@   ensures [C09:install-does-not-access-call-table] cl != nil || !c.singleflight.isInitialized.Load() ==> ghost_clpCount(c.singleflight.calls) == pre(ghost_clpCount(c.singleflight.calls)) && ghost_clpCur(c.singleflight.calls) == pre(ghost_clpCur(c.singleflight.calls)) && ghost_clpNew(c.singleflight.calls) == pre(ghost_clpNew(c.singleflight.calls))
 //@   ensures [C06:atomic-once] old != nil && c.onAtomicDeletion != nil ==> ghost_calls_onAtomicDeletion() == pre(ghost_calls_onAtomicDeletion()) + 1 && same(ghost_arg_onAtomicDeletion_0[K](), ghost_key(old)) && same(ghost_arg_onAtomicDeletion_1[V](), ghost_value(old))
 //@   ensures [C06:cause-truthful] old != nil && c.onAtomicDeletion != nil ==> ghost_arg_onAtomicDeletion_2() == pickCause(live(old, nowNano), CauseReplacement, CauseExpiration)
 //@   ensures [C06:create-reports-nothing] old == nil || c.onAtomicDeletion == nil ==> ghost_calls_onAtomicDeletion() == pre(ghost_calls_onAtomicDeletion())
@@ -618,6 +628,7 @@ func estOf[K comparable](s *sketch[K], k K) uint64 {
 //@   ensures [returns-nil] result == nil
 //@   ensures [C09:write-clears-call] cl == nil && c.singleflight.isInitialized.Load() ==> ghost_calls(c.singleflight.calls, key) == nil
 //@   ensures [C09:install-keeps-call-table] cl != nil || !c.singleflight.isInitialized.Load() ==> ghost_calls(c.singleflight.calls, key) == pre(ghost_calls(c.singleflight.calls, key))
+//@   ensures [C09:install-does-not-access-call-table] cl != nil || !c.singleflight.isInitialized.Load() ==> ghost_clpCount(c.singleflight.calls) == pre(ghost_clpCount(c.singleflight.calls)) && ghost_clpCur(c.singleflight.calls) == pre(ghost_clpCur(c.singleflight.calls)) && ghost_clpNew(c.singleflight.calls) == pre(ghost_clpNew(c.singleflight.calls))
 //@   ensures [C06:atomic-once] old != nil && c.onAtomicDeletion != nil ==> ghost_calls_onAtomicDeletion() == pre(ghost_calls_onAtomicDeletion()) + 1 && same(ghost_arg_onAtomicDeletion_0[K](), ghost_key(old)) && same(ghost_arg_onAtomicDeletion_1[V](), ghost_value(old))
 //@   ensures [C06:cause-truthful] old != nil && c.onAtomicDeletion != nil ==> ghost_arg_onAtomicDeletion_2() == pickCause(live(old, nowNano), CauseInvalidation, CauseExpiration)
 //@   ensures [C06:absent-reports-nothing] old == nil || c.onAtomicDeletion == nil ==> ghost_calls_onAtomicDeletion() == pre(ghost_calls_onAtomicDeletion())
@@ -704,19 +715,20 @@ func estOf[K comparable](s *sketch[K], k K) uint64 {
 //@   ensures [C20:quiet] ghost_hits() == pre(ghost_hits()) && ghost_misses() == pre(ghost_misses())
 
 //@ func (*cache).set : C01 C03 C06 C09 C20 C05
+//@   inline verified on its own and inlined into Set / SetIfAbsent
 //@   mode seq,itf
 //@   requires cfg(c) && c.singleflight != nil
 //@   modifies *
 //@   ensures [C03:expired-or-missing-reported-absent] !lp(live(ghost_tbl(c.hashmap, key), ghost_now())) ==> r1 && same(r0, value)
 //@   ensures [C01:present-reported-with-its-value] lp(live(ghost_tbl(c.hashmap, key), ghost_now())) ==> !r1 && same(r0, lp(ghost_value(ghost_tbl(c.hashmap, key))))
-//@   ensures [C01:installs-unless-present-and-only-if-absent] !onlyIfAbsent || !lp(live(ghost_tbl(c.hashmap, key), ghost_now())) ==> ghost_lpNew(c.hashmap) != nil && ghost_lpNew(c.hashmap) != ghost_lpCur(c.hashmap) && same(ghost_value(ghost_lpNew(c.hashmap)), value) && same(ghost_key(ghost_lpNew(c.hashmap)), key)
-//@   ensures [C01:set-if-absent-keeps-present] onlyIfAbsent && lp(live(ghost_tbl(c.hashmap, key), ghost_now())) ==> ghost_lpNew(c.hashmap) == ghost_lpCur(c.hashmap)
-//@   ensures [C01:one-atomic-access] ghost_lpCount(c.hashmap) == pre(ghost_lpCount(c.hashmap)) + 1 && ghost_lpCur(c.hashmap) == lp(ghost_tbl(c.hashmap, key))
-//@   ensures [C06:atomic-once] c.onAtomicDeletion != nil ==> ghost_calls_onAtomicDeletion() == pre(ghost_calls_onAtomicDeletion()) + pickInt(ghost_lpCur(c.hashmap) != nil && ghost_lpNew(c.hashmap) != ghost_lpCur(c.hashmap), 1, 0)
-//@   ensures [C06:reported-value-and-cause] c.onAtomicDeletion != nil && ghost_lpCur(c.hashmap) != nil && ghost_lpNew(c.hashmap) != ghost_lpCur(c.hashmap) ==> same(ghost_arg_onAtomicDeletion_1[V](), ghost_value(ghost_lpCur(c.hashmap))) && ghost_arg_onAtomicDeletion_2() == pickCause(lp(live(ghost_tbl(c.hashmap, key), ghost_now())), CauseReplacement, CauseExpiration)
-//@   ensures [C05:policy-told-iff-table-changed] ghost_calls_afterWrite() == pre(ghost_calls_afterWrite()) + pickInt(ghost_lpNew(c.hashmap) != ghost_lpCur(c.hashmap), 1, 0)
-//@   ensures [C05:policy-told-the-right-nodes] ghost_lpNew(c.hashmap) != ghost_lpCur(c.hashmap) ==> ghost_last_afterWrite_n[K, V]() == ghost_lpNew(c.hashmap) && ghost_last_afterWrite_old[K, V]() == ghost_lpCur(c.hashmap)
-//@   ensures [C09:write-clears-call] ghost_lpNew(c.hashmap) != ghost_lpCur(c.hashmap) && c.singleflight.isInitialized.Load() ==> lpend(ghost_calls(c.singleflight.calls, key)) == nil
+//@   ensures [C01:installs-unless-present-and-only-if-absent] !onlyIfAbsent || !lp(live(ghost_tbl(c.hashmap, key), ghost_now())) ==> lpend(ghost_lpNew(c.hashmap)) != nil && lpend(ghost_lpNew(c.hashmap)) != lpend(ghost_lpCur(c.hashmap)) && same(ghost_value(lpend(ghost_lpNew(c.hashmap))), value) && same(ghost_key(lpend(ghost_lpNew(c.hashmap))), key)
+//@   ensures [C01:set-if-absent-keeps-present] onlyIfAbsent && lp(live(ghost_tbl(c.hashmap, key), ghost_now())) ==> lpend(ghost_lpNew(c.hashmap)) == lpend(ghost_lpCur(c.hashmap))
+//@   ensures [C01:one-atomic-access] lpend(ghost_lpCount(c.hashmap)) == pre(ghost_lpCount(c.hashmap)) + 1 && lpend(ghost_lpCur(c.hashmap)) == lp(ghost_tbl(c.hashmap, key))
+//@   ensures [C06:atomic-once] c.onAtomicDeletion != nil ==> ghost_calls_onAtomicDeletion() == pre(ghost_calls_onAtomicDeletion()) + pickInt(lpend(ghost_lpCur(c.hashmap)) != nil && lpend(ghost_lpNew(c.hashmap)) != lpend(ghost_lpCur(c.hashmap)), 1, 0)
+//@   ensures [C06:reported-value-and-cause] c.onAtomicDeletion != nil && lpend(ghost_lpCur(c.hashmap)) != nil && lpend(ghost_lpNew(c.hashmap)) != lpend(ghost_lpCur(c.hashmap)) ==> same(ghost_arg_onAtomicDeletion_1[V](), ghost_value(lpend(ghost_lpCur(c.hashmap)))) && ghost_arg_onAtomicDeletion_2() == pickCause(lp(live(ghost_tbl(c.hashmap, key), ghost_now())), CauseReplacement, CauseExpiration)
+//@   ensures [C05:policy-told-iff-table-changed] ghost_calls_afterWrite() == pre(ghost_calls_afterWrite()) + pickInt(lpend(ghost_lpNew(c.hashmap)) != lpend(ghost_lpCur(c.hashmap)), 1, 0)
+//@   ensures [C05:policy-told-the-right-nodes] lpend(ghost_lpNew(c.hashmap)) != lpend(ghost_lpCur(c.hashmap)) ==> ghost_last_afterWrite_n[K, V]() == lpend(ghost_lpNew(c.hashmap)) && ghost_last_afterWrite_old[K, V]() == lpend(ghost_lpCur(c.hashmap))
+//@   ensures [C09:write-clears-call] lpend(ghost_lpNew(c.hashmap)) != lpend(ghost_lpCur(c.hashmap)) && c.singleflight.isInitialized.Load() ==> lpend(ghost_calls(c.singleflight.calls, key)) == nil
 //@   ensures [C20:quiet] ghost_hits() == pre(ghost_hits()) && ghost_misses() == pre(ghost_misses())
 
 //@ func (*cache).Set : C01 C03 C06 C09
@@ -724,13 +736,13 @@ func estOf[K comparable](s *sketch[K], k K) uint64 {
 //@   modifies *
 //@   ensures [C03:expired-or-missing-reported-absent] !lp(live(ghost_tbl(c.hashmap, key), ghost_now())) ==> r1 && same(r0, value)
 //@   ensures [C01:replaced-value-returned] lp(live(ghost_tbl(c.hashmap, key), ghost_now())) ==> !r1 && same(r0, lp(ghost_value(ghost_tbl(c.hashmap, key))))
-//@   ensures [C01:installs] ghost_lpNew(c.hashmap) != nil && same(ghost_value(ghost_lpNew(c.hashmap)), value)
+//@   ensures [C01:installs] lpend(ghost_lpNew(c.hashmap)) != nil && same(ghost_value(lpend(ghost_lpNew(c.hashmap))), value)
 
 //@ func (*cache).SetIfAbsent : C01 C03 C06 C09
 //@   requires cfg(c) && c.singleflight != nil
 //@   modifies *
-//@   ensures [C03:expired-or-missing-reported-absent] !lp(live(ghost_tbl(c.hashmap, key), ghost_now())) ==> r1 && same(r0, value) && ghost_lpNew(c.hashmap) != nil && same(ghost_value(ghost_lpNew(c.hashmap)), value)
-//@   ensures [C01:present-kept] lp(live(ghost_tbl(c.hashmap, key), ghost_now())) ==> !r1 && same(r0, lp(ghost_value(ghost_tbl(c.hashmap, key)))) && ghost_lpNew(c.hashmap) == ghost_lpCur(c.hashmap)
+//@   ensures [C03:expired-or-missing-reported-absent] !lp(live(ghost_tbl(c.hashmap, key), ghost_now())) ==> r1 && same(r0, value) && lpend(ghost_lpNew(c.hashmap)) != nil && same(ghost_value(lpend(ghost_lpNew(c.hashmap))), value)
+//@   ensures [C01:present-kept] lp(live(ghost_tbl(c.hashmap, key), ghost_now())) ==> !r1 && same(r0, lp(ghost_value(ghost_tbl(c.hashmap, key)))) && lpend(ghost_lpNew(c.hashmap)) == lpend(ghost_lpCur(c.hashmap))
 
 //@ func (*cache).Invalidate : C01 C03 C06 C09 C20 C05
 //@   mode seq,itf
@@ -738,10 +750,10 @@ func estOf[K comparable](s *sketch[K], k K) uint64 {
 //@   modifies *
 //@   ensures [C03:expired-or-missing-reported-absent] !lp(live(ghost_tbl(c.hashmap, key), ghost_now())) ==> !invalidated && same(value, zeroValue[V]())
 //@   ensures [C01:present-reported-with-its-value] lp(live(ghost_tbl(c.hashmap, key), ghost_now())) ==> invalidated && same(value, lp(ghost_value(ghost_tbl(c.hashmap, key))))
-//@   ensures [C01:removes] ghost_lpNew(c.hashmap) == nil && ghost_lpCount(c.hashmap) == pre(ghost_lpCount(c.hashmap)) + 1
-//@   ensures [C06:atomic-once] c.onAtomicDeletion != nil ==> ghost_calls_onAtomicDeletion() == pre(ghost_calls_onAtomicDeletion()) + pickInt(ghost_lpCur(c.hashmap) != nil, 1, 0)
-//@   ensures [C06:reported-value-and-cause] c.onAtomicDeletion != nil && ghost_lpCur(c.hashmap) != nil ==> same(ghost_arg_onAtomicDeletion_1[V](), ghost_value(ghost_lpCur(c.hashmap))) && ghost_arg_onAtomicDeletion_2() == pickCause(lp(live(ghost_tbl(c.hashmap, key), ghost_now())), CauseInvalidation, CauseExpiration)
-//@   ensures [C05:policy-told-iff-removed] ghost_calls_afterDelete() == pre(ghost_calls_afterDelete()) + 1 && ghost_last_afterDelete_deleted[K, V]() == ghost_lpCur(c.hashmap)
+//@   ensures [C01:removes] lpend(ghost_lpNew(c.hashmap)) == nil && lpend(ghost_lpCount(c.hashmap)) == pre(ghost_lpCount(c.hashmap)) + 1
+//@   ensures [C06:atomic-once] c.onAtomicDeletion != nil ==> ghost_calls_onAtomicDeletion() == pre(ghost_calls_onAtomicDeletion()) + pickInt(lpend(ghost_lpCur(c.hashmap)) != nil, 1, 0)
+//@   ensures [C06:reported-value-and-cause] c.onAtomicDeletion != nil && lpend(ghost_lpCur(c.hashmap)) != nil ==> same(ghost_arg_onAtomicDeletion_1[V](), ghost_value(lpend(ghost_lpCur(c.hashmap)))) && ghost_arg_onAtomicDeletion_2() == pickCause(lp(live(ghost_tbl(c.hashmap, key), ghost_now())), CauseInvalidation, CauseExpiration)
+//@   ensures [C05:policy-told-iff-removed] ghost_calls_afterDelete() == pre(ghost_calls_afterDelete()) + 1 && ghost_last_afterDelete_deleted[K, V]() == lpend(ghost_lpCur(c.hashmap))
 //@   ensures [C09:write-clears-call] c.singleflight.isInitialized.Load() ==> lpend(ghost_calls(c.singleflight.calls, key)) == nil
 //@   ensures [C20:quiet] ghost_hits() == pre(ghost_hits()) && ghost_misses() == pre(ghost_misses())
 
@@ -762,18 +774,18 @@ func estOf[K comparable](s *sketch[K], k K) uint64 {
 //@   requires cfg(c) && c.singleflight != nil && nowNano >= 0
 //@   modifies *
 //@   ensures [C03:callback-sees-expired-as-absent] ghost_calls_remappingFunc() == pre(ghost_calls_remappingFunc()) + 1 && ghost_arg_remappingFunc_1() == lp(live(ghost_tbl(c.hashmap, key), nowNano)) && same(ghost_arg_remappingFunc_0[V](), lp(pickV(live(ghost_tbl(c.hashmap, key), nowNano), ghost_value(ghost_tbl(c.hashmap, key)), zeroValue[V]())))
-//@   ensures [C01:cancel-keeps-live-drops-expired] ghost_ret_remappingFunc_1() == CancelOp ==> ghost_lpNew(c.hashmap) == pickNode(lp(live(ghost_tbl(c.hashmap, key), nowNano)), ghost_lpCur(c.hashmap), nil)
-//@   ensures [C01:write-installs] ghost_ret_remappingFunc_1() == WriteOp ==> ghost_lpNew(c.hashmap) != nil && ghost_lpNew(c.hashmap) != ghost_lpCur(c.hashmap) && same(ghost_value(ghost_lpNew(c.hashmap)), ghost_ret_remappingFunc_0[V]()) && same(ghost_key(ghost_lpNew(c.hashmap)), key)
-//@   ensures [C01:invalidate-removes] ghost_ret_remappingFunc_1() == InvalidateOp ==> ghost_lpNew(c.hashmap) == nil
-//@   ensures [C01:result-is-table-content] r1 == (ghost_lpNew(c.hashmap) != nil) && (r1 ==> same(r0, ghost_value(ghost_lpNew(c.hashmap)))) && (!r1 ==> same(r0, zeroValue[V]()))
-//@   ensures [C01:one-atomic-access] ghost_lpCount(c.hashmap) == pre(ghost_lpCount(c.hashmap)) + 1 && ghost_lpCur(c.hashmap) == lp(ghost_tbl(c.hashmap, key))
-//@   ensures [C06:atomic-once] c.onAtomicDeletion != nil ==> ghost_calls_onAtomicDeletion() == pre(ghost_calls_onAtomicDeletion()) + pickInt(ghost_lpCur(c.hashmap) != nil && ghost_lpNew(c.hashmap) != ghost_lpCur(c.hashmap), 1, 0)
-//@   ensures [C06:reported-value-and-cause] c.onAtomicDeletion != nil && ghost_lpCur(c.hashmap) != nil && ghost_lpNew(c.hashmap) != ghost_lpCur(c.hashmap) ==> same(ghost_arg_onAtomicDeletion_1[V](), ghost_value(ghost_lpCur(c.hashmap))) && ghost_arg_onAtomicDeletion_2() == pickCause(lp(live(ghost_tbl(c.hashmap, key), nowNano)), pickCause(ghost_ret_remappingFunc_1() == WriteOp, CauseReplacement, CauseInvalidation), CauseExpiration)
-//@   ensures [C05:write-tells-policy] ghost_calls_afterWrite() == pre(ghost_calls_afterWrite()) + pickInt(ghost_ret_remappingFunc_1() == WriteOp, 1, 0) && (ghost_ret_remappingFunc_1() == WriteOp ==> ghost_last_afterWrite_n[K, V]() == ghost_lpNew(c.hashmap) && ghost_last_afterWrite_old[K, V]() == ghost_lpCur(c.hashmap))
-//@   ensures [C05:removal-tells-policy] ghost_ret_remappingFunc_1() != WriteOp && ghost_lpCur(c.hashmap) != nil && ghost_lpNew(c.hashmap) == nil ==> ghost_calls_afterDelete() == pre(ghost_calls_afterDelete()) + 1 && ghost_last_afterDelete_deleted[K, V]() == ghost_lpCur(c.hashmap)
-//@   ensures [C05:no-removal-no-delete-task] ghost_ret_remappingFunc_1() != WriteOp && ghost_lpNew(c.hashmap) == ghost_lpCur(c.hashmap) && ghost_lpCur(c.hashmap) != nil ==> ghost_calls_afterDelete() == pre(ghost_calls_afterDelete())
-//@   ensures [C09:write-clears-call] ghost_lpNew(c.hashmap) != ghost_lpCur(c.hashmap) && c.singleflight.isInitialized.Load() ==> lpend(ghost_calls(c.singleflight.calls, key)) == nil
-//@   ensures [C08:cancelled-compute-keeps-inflight-load] ghost_ret_remappingFunc_1() == CancelOp && ghost_lpNew(c.hashmap) == ghost_lpCur(c.hashmap) ==> lpend(ghost_calls(c.singleflight.calls, key)) == lp(ghost_calls(c.singleflight.calls, key))
+//@   ensures [C01:cancel-keeps-live-drops-expired] ghost_ret_remappingFunc_1() == CancelOp ==> lpend(ghost_lpNew(c.hashmap)) == pickNode(lp(live(ghost_tbl(c.hashmap, key), nowNano)), lpend(ghost_lpCur(c.hashmap)), nil)
+//@   ensures [C01:write-installs] ghost_ret_remappingFunc_1() == WriteOp ==> lpend(ghost_lpNew(c.hashmap)) != nil && lpend(ghost_lpNew(c.hashmap)) != lpend(ghost_lpCur(c.hashmap)) && same(ghost_value(lpend(ghost_lpNew(c.hashmap))), ghost_ret_remappingFunc_0[V]()) && same(ghost_key(lpend(ghost_lpNew(c.hashmap))), key)
+//@   ensures [C01:invalidate-removes] ghost_ret_remappingFunc_1() == InvalidateOp ==> lpend(ghost_lpNew(c.hashmap)) == nil
+//@   ensures [C01:result-is-table-content] r1 == (lpend(ghost_lpNew(c.hashmap)) != nil) && (r1 ==> same(r0, ghost_value(lpend(ghost_lpNew(c.hashmap))))) && (!r1 ==> same(r0, zeroValue[V]()))
+//@   ensures [C01:one-atomic-access] lpend(ghost_lpCount(c.hashmap)) == pre(ghost_lpCount(c.hashmap)) + 1 && lpend(ghost_lpCur(c.hashmap)) == lp(ghost_tbl(c.hashmap, key))
+//@   ensures [C06:atomic-once] c.onAtomicDeletion != nil ==> ghost_calls_onAtomicDeletion() == pre(ghost_calls_onAtomicDeletion()) + pickInt(lpend(ghost_lpCur(c.hashmap)) != nil && lpend(ghost_lpNew(c.hashmap)) != lpend(ghost_lpCur(c.hashmap)), 1, 0)
+//@   ensures [C06:reported-value-and-cause] c.onAtomicDeletion != nil && lpend(ghost_lpCur(c.hashmap)) != nil && lpend(ghost_lpNew(c.hashmap)) != lpend(ghost_lpCur(c.hashmap)) ==> same(ghost_arg_onAtomicDeletion_1[V](), ghost_value(lpend(ghost_lpCur(c.hashmap)))) && ghost_arg_onAtomicDeletion_2() == pickCause(lp(live(ghost_tbl(c.hashmap, key), nowNano)), pickCause(ghost_ret_remappingFunc_1() == WriteOp, CauseReplacement, CauseInvalidation), CauseExpiration)
+//@   ensures [C05:write-tells-policy] ghost_calls_afterWrite() == pre(ghost_calls_afterWrite()) + pickInt(ghost_ret_remappingFunc_1() == WriteOp, 1, 0) && (ghost_ret_remappingFunc_1() == WriteOp ==> ghost_last_afterWrite_n[K, V]() == lpend(ghost_lpNew(c.hashmap)) && ghost_last_afterWrite_old[K, V]() == lpend(ghost_lpCur(c.hashmap)))
+//@   ensures [C05:removal-tells-policy] ghost_ret_remappingFunc_1() != WriteOp && lpend(ghost_lpCur(c.hashmap)) != nil && lpend(ghost_lpNew(c.hashmap)) == nil ==> ghost_calls_afterDelete() == pre(ghost_calls_afterDelete()) + 1 && ghost_last_afterDelete_deleted[K, V]() == lpend(ghost_lpCur(c.hashmap))
+//@   ensures [C05:no-removal-no-delete-task] ghost_ret_remappingFunc_1() != WriteOp && lpend(ghost_lpNew(c.hashmap)) == lpend(ghost_lpCur(c.hashmap)) && lpend(ghost_lpCur(c.hashmap)) != nil ==> ghost_calls_afterDelete() == pre(ghost_calls_afterDelete())
+//@   ensures [C09:write-clears-call] lpend(ghost_lpNew(c.hashmap)) != lpend(ghost_lpCur(c.hashmap)) && c.singleflight.isInitialized.Load() ==> lpend(ghost_calls(c.singleflight.calls, key)) == nil
+//@   ensures [C08:cancelled-compute-keeps-inflight-load] ghost_ret_remappingFunc_1() == CancelOp && lpend(ghost_lpNew(c.hashmap)) == lpend(ghost_lpCur(c.hashmap)) ==> lpend(ghost_calls(c.singleflight.calls, key)) == lp(ghost_calls(c.singleflight.calls, key))
 //@   ensures [C20:one-lookup-when-counting] recordStats ==> ghost_hits()+ghost_misses() == pre(ghost_hits()+ghost_misses()) + 1 && ghost_hits() == pre(ghost_hits()) + pickU64(lp(live(ghost_tbl(c.hashmap, key), nowNano)), 1, 0)
 //@   ensures [C20:quiet-otherwise] !recordStats ==> ghost_hits() == pre(ghost_hits()) && ghost_misses() == pre(ghost_misses())
 
@@ -782,7 +794,7 @@ func estOf[K comparable](s *sketch[K], k K) uint64 {
 //@   requires cfg(c) && c.singleflight != nil
 //@   modifies *
 //@   ensures [C03:callback-sees-expired-as-absent] ghost_calls_remappingFunc() == pre(ghost_calls_remappingFunc()) + 1 && ghost_arg_remappingFunc_1() == lp(live(ghost_tbl(c.hashmap, key), ghost_now()))
-//@   ensures [C01:result-is-table-content] r1 == (ghost_lpNew(c.hashmap) != nil) && (r1 ==> same(r0, ghost_value(ghost_lpNew(c.hashmap)))) && (!r1 ==> same(r0, zeroValue[V]()))
+//@   ensures [C01:result-is-table-content] r1 == (lpend(ghost_lpNew(c.hashmap)) != nil) && (r1 ==> same(r0, ghost_value(lpend(ghost_lpNew(c.hashmap))))) && (!r1 ==> same(r0, zeroValue[V]()))
 //@   ensures [C20:one-lookup] ghost_hits()+ghost_misses() == pre(ghost_hits()+ghost_misses()) + 1 && ghost_hits() == pre(ghost_hits()) + pickU64(lp(live(ghost_tbl(c.hashmap, key), ghost_now())), 1, 0)
 
 //@ func (*cache).ComputeIfAbsent : C01 C03 C20
@@ -791,7 +803,7 @@ func estOf[K comparable](s *sketch[K], k K) uint64 {
 //@   modifies *
 //@   ensures [C03:present-returns-without-computing] liveAt(pre(ghost_tbl(c.hashmap, key)), pre(ghost_expiresAt(ghost_tbl(c.hashmap, key))), ghost_now()) ==> r1 && same(r0, ghost_value(pre(ghost_tbl(c.hashmap, key)))) && ghost_calls_mappingFunc() == pre(ghost_calls_mappingFunc())
 //@   ensures [C03:expired-or-missing-computes-at-most-once] !liveAt(pre(ghost_tbl(c.hashmap, key)), pre(ghost_expiresAt(ghost_tbl(c.hashmap, key))), ghost_now()) ==> ghost_calls_mappingFunc() == pre(ghost_calls_mappingFunc()) || ghost_calls_mappingFunc() == pre(ghost_calls_mappingFunc())+1
-//@   ensures [C01:result-is-table-content] !liveAt(pre(ghost_tbl(c.hashmap, key)), pre(ghost_expiresAt(ghost_tbl(c.hashmap, key))), ghost_now()) ==> r1 == (ghost_lpNew(c.hashmap) != nil)
+//@   ensures [C01:result-is-table-content] !liveAt(pre(ghost_tbl(c.hashmap, key)), pre(ghost_expiresAt(ghost_tbl(c.hashmap, key))), ghost_now()) ==> r1 == (lpend(ghost_lpNew(c.hashmap)) != nil)
 //@   ensures [C20:one-lookup] ghost_hits()+ghost_misses() == pre(ghost_hits()+ghost_misses()) + 1
 
 //@ func (*cache).ComputeIfPresent : C01 C03 C20
@@ -831,6 +843,7 @@ func estOf[K comparable](s *sketch[K], k K) uint64 {
 //@   requires cfg(c)
 //@   modifies *
 //@   result-callback yield: requires [C03:ordered-iteration-live-only] !c.withExpiration || cb0.ExpiresAtNano > cb0.SnapshotAtNano
+//@   result-callback yield: requires [C19:ordering-reflects-every-recorded-write] !c.withEviction || ghost_calls_maintenance() == pre(ghost_calls_maintenance())+1
 
 // ---------------------------------------------------------------------------------------------
 // Loads: single flight (C08), no overwrite of newer writes (C09), outcome table (C10), statistics (C20)
@@ -860,9 +873,11 @@ func estOf[K comparable](s *sketch[K], k K) uint64 {
 //@   ensures [C08:second-caller-does-not-load] ghost_clpCount(g.calls) != pre(ghost_clpCount(g.calls)) && ghost_clpCur(g.calls) != nil ==> !shouldLoad && c == ghost_clpCur(g.calls) && ghost_clpNew(g.calls) == ghost_clpCur(g.calls)
 
 //@ func (*group).deleteCall : C08 C09
-//@   mode seq,itf
+//@   mode seq
+//@   note called only from afterDeleteCall, inside the node table's critical section for the same key, where the call-table entry of that key cannot change concurrently (every writer of it holds that bucket lock)
 //@   requires g.calls != nil && c != nil
 //@   modifies ghost_calls(g.calls, c.key)
+//@   ensures @seq [C08:removes-exactly-its-own-record] deleted == (pre(ghost_calls(g.calls, c.key)) == c) && ghost_calls(g.calls, c.key) == pickCall(deleted, nil, pre(ghost_calls(g.calls, c.key)))
 //@   ensures [C09:removes-only-own-record] deleted ==> ghost_clpCount(g.calls) == pre(ghost_clpCount(g.calls)) + 1 && ghost_clpCur(g.calls) == c && ghost_clpNew(g.calls) == nil
 //@   ensures [C09:foreign-record-kept] ghost_clpCount(g.calls) != pre(ghost_clpCount(g.calls)) && ghost_clpCur(g.calls) != c ==> !deleted && ghost_clpNew(g.calls) == ghost_clpCur(g.calls)
 
@@ -888,14 +903,17 @@ func estOf[K comparable](s *sketch[K], k K) uint64 {
 //@   requires cfg(c) && c.singleflight != nil && cl != nil && c.singleflight.calls != nil && c.singleflight.isInitialized.Load()
 //@   modifies *
 //@   ensures [clock-stable] pre(ghost_clockRead()) ==> ghost_clockRead() && ghost_now() == pre(ghost_now())
-//@   ensures [C09:install-only-own-call] ghost_lpNew(c.hashmap) != ghost_lpCur(c.hashmap) ==> cl.isFake || (ghost_clpCur(c.singleflight.calls) == cl && ghost_clpNew(c.singleflight.calls) == nil && ghost_clpCount(c.singleflight.calls) != pre(ghost_clpCount(c.singleflight.calls)))
-//@   ensures [C10:success-installs-value] ghost_lpNew(c.hashmap) != ghost_lpCur(c.hashmap) && ghost_lpNew(c.hashmap) != nil ==> cl.err == nil && !cl.isNotFound && same(ghost_value(ghost_lpNew(c.hashmap)), cl.value) && same(ghost_key(ghost_lpNew(c.hashmap)), cl.key)
-//@   ensures [C10:failure-leaves-cache-unchanged] cl.err != nil && !cl.isNotFound ==> ghost_lpNew(c.hashmap) == ghost_lpCur(c.hashmap)
-//@   ensures [C10:notfound-caches-nothing] cl.isNotFound ==> ghost_lpNew(c.hashmap) == nil || ghost_lpNew(c.hashmap) == ghost_lpCur(c.hashmap)
-//@   ensures [C11:failed-reload-keeps-expiry] cl.err != nil && !cl.isNotFound && ghost_lpCur(c.hashmap) != nil && c.withExpiration ==> lpend(ghost_expiresAt(ghost_tbl(c.hashmap, cl.key))) == lp(ghost_expiresAt(ghost_tbl(c.hashmap, cl.key)))
+//@   ensures [C09:install-only-own-call] lpend(ghost_lpNew(c.hashmap)) != lpend(ghost_lpCur(c.hashmap)) ==> cl.isFake || (lpend(ghost_clpCur(c.singleflight.calls)) == cl && lpend(ghost_clpNew(c.singleflight.calls)) == nil && lpend(ghost_clpCount(c.singleflight.calls)) != pre(ghost_clpCount(c.singleflight.calls)))
+//@   ensures [C09:own-record-checked-inside-the-critical-section] lpend(ghost_lpNew(c.hashmap)) != lpend(ghost_lpCur(c.hashmap)) && !cl.isFake ==> lp(ghost_clpCount(c.singleflight.calls)) == pre(ghost_clpCount(c.singleflight.calls)) && lpend(ghost_clpCount(c.singleflight.calls)) != lp(ghost_clpCount(c.singleflight.calls))
+//@   ensures @seq [C08:removes-only-its-own-record] ghost_calls(c.singleflight.calls, cl.key) == pickCall(!cl.isFake && pre(ghost_calls(c.singleflight.calls, cl.key)) == cl, nil, pre(ghost_calls(c.singleflight.calls, cl.key)))
+//@   ensures [C11:failed-reload-reschedules-refresh] cl.err != nil && !cl.isNotFound && cl.isRefresh && lpend(ghost_lpCur(c.hashmap)) != nil && c.withRefresh ==> ghost_calls_RefreshAfterReloadFailure() == pre(ghost_calls_RefreshAfterReloadFailure()) + 1
+//@   ensures [C10:success-installs-value] lpend(ghost_lpNew(c.hashmap)) != lpend(ghost_lpCur(c.hashmap)) && lpend(ghost_lpNew(c.hashmap)) != nil ==> cl.err == nil && !cl.isNotFound && same(ghost_value(lpend(ghost_lpNew(c.hashmap))), cl.value) && same(ghost_key(lpend(ghost_lpNew(c.hashmap))), cl.key)
+//@   ensures [C10:failure-leaves-cache-unchanged] cl.err != nil && !cl.isNotFound ==> lpend(ghost_lpNew(c.hashmap)) == lpend(ghost_lpCur(c.hashmap))
+//@   ensures [C10:notfound-caches-nothing] cl.isNotFound ==> lpend(ghost_lpNew(c.hashmap)) == nil || lpend(ghost_lpNew(c.hashmap)) == lpend(ghost_lpCur(c.hashmap))
+//@   ensures [C11:failed-reload-keeps-expiry] cl.err != nil && !cl.isNotFound && lpend(ghost_lpCur(c.hashmap)) != nil && c.withExpiration ==> lpend(ghost_expiresAt(ghost_tbl(c.hashmap, cl.key))) == lp(ghost_expiresAt(ghost_tbl(c.hashmap, cl.key)))
 //@   ensures [C08:waiters-released-once] ghost_wgDone(cl) == pre(ghost_wgDone(cl)) + pickInt(cl.isFake, 0, 1)
-//@   ensures [C06:atomic-once] c.onAtomicDeletion != nil ==> ghost_calls_onAtomicDeletion() == pre(ghost_calls_onAtomicDeletion()) + pickInt(ghost_lpCur(c.hashmap) != nil && ghost_lpNew(c.hashmap) != ghost_lpCur(c.hashmap), 1, 0)
-//@   ensures [C05:policy-told-iff-table-changed] ghost_calls_afterWrite() == pre(ghost_calls_afterWrite()) + pickInt(ghost_lpNew(c.hashmap) != nil && ghost_lpNew(c.hashmap) != ghost_lpCur(c.hashmap), 1, 0) && ghost_calls_afterDelete() == pre(ghost_calls_afterDelete()) + pickInt(ghost_lpNew(c.hashmap) == nil && ghost_lpCur(c.hashmap) != nil, 1, 0)
+//@   ensures [C06:atomic-once] c.onAtomicDeletion != nil ==> ghost_calls_onAtomicDeletion() == pre(ghost_calls_onAtomicDeletion()) + pickInt(lpend(ghost_lpCur(c.hashmap)) != nil && lpend(ghost_lpNew(c.hashmap)) != lpend(ghost_lpCur(c.hashmap)), 1, 0)
+//@   ensures [C05:policy-told-iff-table-changed] ghost_calls_afterWrite() == pre(ghost_calls_afterWrite()) + pickInt(lpend(ghost_lpNew(c.hashmap)) != nil && lpend(ghost_lpNew(c.hashmap)) != lpend(ghost_lpCur(c.hashmap)), 1, 0) && ghost_calls_afterDelete() == pre(ghost_calls_afterDelete()) + pickInt(lpend(ghost_lpNew(c.hashmap)) == nil && lpend(ghost_lpCur(c.hashmap)) != nil, 1, 0)
 
 //@ func (*cache).wrapLoad : C20 C08
 //@   inline verified on its own and inlined at its call sites (the closure it runs is executed concretely)
@@ -911,7 +929,7 @@ func estOf[K comparable](s *sketch[K], k K) uint64 {
 // ---------------------------------------------------------------------------------------------
 
 //@ macro EVICTFX = cb_n.state, node::queueType, node::prev, node::next, node::prevExp, node::nextExp, ghost_inWheel(*), ghost_inDeque(*), policy::weightedSize, policy::windowWeightedSize, policy::mainProtectedWeightedSize, Linked::*, task::*, ghost_tbl(*), ghost_calls(*), $EVLOG, $ONDEL, $ATOMICEV
-//@ macro POLFX = node::state, node::queueType, node::prev, node::next, node::prevExp, node::nextExp, ghost_inWheel(*), ghost_inDeque(*), policy::weightedSize, policy::windowWeightedSize, policy::mainProtectedWeightedSize, policy::hitsInSample, policy::missesInSample, Linked::*, sketch::*, task::*, ghost_tbl(*), ghost_calls(*), $EVLOG, $ONDEL, $ATOMICEV, ghost_calls_rand(), ghost_ret_rand()
+//@ macro POLFX = node::state, node::queueType, node::prev, node::next, node::prevExp, node::nextExp, ghost_inWheel(*), ghost_inDeque(*), policy::weightedSize, policy::windowWeightedSize, policy::mainProtectedWeightedSize, policy::hitsInSample, policy::missesInSample, Linked::*, sketch::*, []uint64::*, task::*, ghost_tbl(*), ghost_calls(*), $EVLOG, $ONDEL, $ATOMICEV, ghost_calls_rand(), ghost_ret_rand()
 
 //@ func (*policy).makeDead : C04 C05 C07
 //@   requires ghost_hasSize() && ghost_hasState() && n != nil
